@@ -132,7 +132,7 @@ def cases(tier, seed):
         for cl in ("asm", "fu.cas"):
             for sw in SWITCHES:
                 for ap in (False, True):
-                    for spell in ("./", "sub/../", "nosuch/../"):
+                    for spell in ("./", "sub/../", "nosuch/../", "~/"):
                         yield {"target": t, "seq": [[cl, sw, ap]], "sub": False, "spell": spell}
     # sequences of two (and three) invocations on the same path
     steps = [[cl, sw, ap] for cl in (CLIS if thorough else ["asm"]) for sw in SWITCHES for ap in (False, True)]
@@ -172,6 +172,7 @@ def check_case(case):
     res = {"nontrivial": True, "outcome": "ok", "transitions": len(case["seq"])}
     viol = []
     cwd = os.getcwd()
+    home = os.environ.get("HOME")
     trace = []
     try:
         os.chdir(td)
@@ -193,6 +194,10 @@ def check_case(case):
             tpath = case.get("spell", "") + "target.out"
             if case.get("spell") == "sub/../":
                 os.makedirs("sub", exist_ok=True)
+            if case.get("spell") == "~/":
+                # a literal ~ that no shell expanded (--to_cas=~/x): the home directory is this case's directory, so that a tool which
+                # expands it lands on the existing target
+                os.environ["HOME"] = td
             kw = {"to_" + sw: tpath, "append": ap}
             if case["sub"]:
                 args = (["prog.asm"] if cl == "asm" else ["src." + cl[3:]]) + ["--to_" + sw, tpath] + (["--append"] if ap else [])
@@ -251,6 +256,10 @@ def check_case(case):
                 break
     finally:
         os.chdir(cwd)
+        if home is None:
+            os.environ.pop("HOME", None)
+        else:
+            os.environ["HOME"] = home
         shutil.rmtree(td, ignore_errors=True)
     res["state"] = ";".join(trace)
     if viol:
